@@ -31,6 +31,31 @@ CHECKS = {
          "set in use) executed; LawsSym and 'assignment succeeds' judged by TLC on real states; rule attributes read back / "
          "re-assigned for a menu of constructor arguments and judged by spec/EGLaws.tla.",
          "TLC model checking + trace validation (adopt + invariant)"),
+ "C04": ("model_checking", "6 C04",
+         "In every graph state the API can reach over the pool (2-3 vertices, 2-3 links, directed / undirected / other two-ended "
+         "kinds and subclasses, self-loops, parallel and half-assigned edges, every links order) neighbors() is called on the real "
+         "objects for all 3 x 3 x 6 (direction, handling, filter) settings and TLC compares every answer with EGQueries!Nb; TLC also "
+         "checks the FORWARD/BACKWARD duality lemma on the model and on the logged answers.",
+         "TLC model checking of lemmas + trace validation (answer = operator)"),
+ "C06": ("model_checking", "6 C06",
+         "All three traversals and generator forms run on the real objects in every fully assigned graph state over the pool, for "
+         "every universe (None / every subset) x start x direction x handling (+ sampled filters); TLC compares with the traversal "
+         "operators and separately proves on every lemma graph that those list exactly the reachable in-universe set once each.",
+         "TLC model checking of lemmas + trace validation (answer = operator)"),
+ "C07": ("model_checking", "6 C07",
+         "Same executions judged element by element for order against the loop-mirroring operators; TLC shows on every lemma graph "
+         "that the bft operator is a BFS level order and the dft_recursive operator the canonical pre-order.",
+         "TLC model checking of lemmas + trace validation (sequence equality)"),
+ "C08": ("model_checking", "6 C08",
+         "bfs / dfs_recursive / dfs_iterative run on the real objects over all small graphs x sampled attribute assignments x "
+         "universes x starts x sought values, for Vertex subclasses including falsy ones; TLC compares with the first match of the "
+         "corresponding traversal operator and proves the search-loop mirrors equal that specification on the lemma graphs.",
+         "TLC model checking of lemmas + trace validation (answer = operator)"),
+ "C09": ("model_checking", "6 C09",
+         "find_links() called on the real objects for every ordered pair (incl. a is b) x flag x handling x 5 filters in every graph "
+         "state incl. post-unlink states; compared by TLC with EGQueries!FindLinks; agreement with neighbors() multiplicity re-checked "
+         "on logged answers; UnlinkEmpties lemma checked on the model.",
+         "TLC model checking of lemmas + trace validation (answer = operator)"),
 }
 
 NOT_YET = {}
